@@ -86,6 +86,9 @@ def refinement_case(c, quick, tol=None):
         # the factorisation-scale terms are built by another routine (conv.convolve_operator): a degree-2 grid joins the comparison
         bounds["fine_degree2"] = 8e-3       # measured 2.7e-3
         setups.insert(3, ("fine_degree2", make_grid(50, 30), 2))
+        # as many nodes, same degree and log mode as the medium grid, other spacing: run in the same process right after it
+        bounds["medium_other_spacing"] = 5e-3      # measured 1.6e-3
+        setups.insert(2, ("medium_other_spacing", make_grid(20, 30), 4))
     xs = c.get("xs") or [0.003, 0.03, 0.2, 0.5]
     name = c["kind"] + "_total"
     keys = [(o, 0, 0, 0) for o in range(c["pto"] + 1)] + ([(1, 0, 0, 1)] if c.get("fact") else [])
